@@ -93,6 +93,11 @@ def check(ctx):
                     rec["default_err"] = x["got"].startswith("0 false")
                     rec["alt_err"] = y["got"].startswith("0 false")
                     rec["spec_hard"] = "hard=true" in x["want"]
+                    # the part of the difference that lies in the escaped-key text plan (observations marked "esc")
+                    xi, yi = x["got"].split(" ; "), y["got"].split(" ; ")
+                    rec["esc_only"] = [o for o in xi if not o.startswith("esc")] == [o for o in yi if not o.startswith("esc")]
+                    rec["default_esc_err"] = any(o.startswith("esc") and " false" in o[:12] for o in xi)
+                    rec["alt_esc_err"] = any(o.startswith("esc") and " false" in o[:12] for o in yi)
                     fid = vf.match_known(known, rec)
                     if fid:
                         ctx.known_hits[fid] = ctx.known_hits.get(fid, 0) + 1
